@@ -99,7 +99,7 @@ func c05Run(c *Ctx) {
 	}
 	// (a scalar with two default tags ends with the last one)
 
-	d := &Decl{Options: flags.Options([]flags.Options{0, flags.PassDoubleDash, flags.HelpFlag}[r.Intn(3)])}
+	d := &Decl{Options: flags.Options([]flags.Options{0, flags.PassDoubleDash, flags.HelpFlag, flags.IgnoreUnknown, flags.IgnoreUnknown | flags.PassDoubleDash}[r.Intn(5)])}
 	d.EnvDelim = []string{"", "_", "__", "-"}[r.Intn(4)]
 	d.NsDelim = []string{"", ".", "-"}[r.Intn(3)]
 	root := &Cmd{ID: d.NewID(), Name: "app", SubOptional: true}
@@ -223,6 +223,14 @@ func c05Run(c *Ctx) {
 			n = r.Range(1, 3)
 		}
 		iniText = "[" + section + "]\n"
+		if r.Chance(1, 4) {
+			// the header appears a first time without entries (a comment at most): its entries still count once
+			iniText += r.Pick([]string{"", "; nothing here yet\n"}) + "[" + section + "]\n"
+		}
+		if d.Options&flags.IgnoreUnknown != 0 && r.Bool() {
+			// an entry nobody knows is skipped - the entries after it are applied all the same
+			iniText += "zz_unknown_entry = 1\n"
+		}
 		for i := 0; i < n; i++ {
 			v := c05Value(r, t, "ini")
 			if isBool && r.Bool() {
